@@ -130,3 +130,29 @@ fix_handover_good (FILE *fp, size_t n)
   (*__gmp_free_func) (o.data, o.size);
   return ok;
 }
+
+/* R-ALLOC.blockmove positive: swaps the limb blocks of two floats but leaves each precision behind */
+void
+fix_blockmove_bad (mpf_ptr u, mpf_ptr v)
+{
+  mp_ptr t = PTR (u);
+  mp_size_t s = SIZ (u);
+  PTR (u) = PTR (v);
+  PTR (v) = t;
+  SIZ (u) = SIZ (v);
+  SIZ (v) = s;
+}
+
+/* negative twin */
+void
+fix_blockmove_good (mpf_ptr u, mpf_ptr v)
+{
+  mp_ptr t = PTR (u);
+  mp_size_t s = SIZ (u), p = PREC (u);
+  PTR (u) = PTR (v);
+  PTR (v) = t;
+  SIZ (u) = SIZ (v);
+  SIZ (v) = s;
+  PREC (u) = PREC (v);
+  PREC (v) = p;
+}
